@@ -542,7 +542,41 @@ func tlv8MergeOnlyPreviousItem(c *core.Ctx) {
 		u, ok := core.StripConv(v).(*ssa.UnOp)
 		return ok && u.Op == token.MUL && u.X == tagCell
 	}
+	// the previous tag: a loop-carried variable one of whose incoming values is a load of the tag variable — or, where the
+	// dominance query has replaced that variable by the value it has on the edge taken, one of those incoming values itself
+	prevVals := map[ssa.Value]bool{}
+	prevInit := map[int64]bool{}
+	core.Instrs(rd, func(i ssa.Instruction) {
+		if ph, ok := i.(*ssa.Phi); ok {
+			carried := false
+			for _, e := range ph.Edges {
+				if isTagLoad(e) {
+					carried = true
+				}
+			}
+			if carried {
+				prevVals[ph] = true
+				for _, e := range ph.Edges {
+					if k, isK := e.(*ssa.Const); isK {
+						if v, ok := core.ConstInt(k); ok {
+							prevInit[v] = true // the value before the first item
+						}
+						continue
+					}
+					prevVals[e] = true
+				}
+			}
+		}
+	})
 	isPrevTag := func(v ssa.Value) bool {
+		if prevVals[core.StripConv(v)] {
+			return true
+		}
+		if k, isK := core.StripConv(v).(*ssa.Const); isK {
+			if n, ok := core.ConstInt(k); ok && prevInit[n] {
+				return true
+			}
+		}
 		ph, ok := core.StripConv(v).(*ssa.Phi)
 		if !ok {
 			return false
